@@ -61,6 +61,11 @@ func (a *Adapter) beginRenew(act Act) error {
 	})
 	cs := a.E.CM.TipState()
 	signer := a.E.Signer(a.K.RenterKey)
+	allowance, collateral := Units(1000), Units(2000)
+	if act.NA > 0 {
+		allowance, collateral = Units(uint64(act.NA)), Units(uint64(act.NC))
+	}
+	oldID := a.K.ID
 	// the client signs with the price table it was given; the proxy substitutes the table of the
 	// corruption class in the request it forwards
 	go func() {
@@ -69,14 +74,14 @@ func (a *Adapter) beginRenew(act Act) error {
 		var res renewResult
 		switch act.Kind {
 		case "renew":
-			p := proto4.RPCRenewContractParams{ContractID: a.K.ID, Allowance: Units(1000), Collateral: Units(2000), ProofHeight: ex.ProofHeight + 10}
+			p := proto4.RPCRenewContractParams{ContractID: oldID, Allowance: allowance, Collateral: collateral, ProofHeight: ex.ProofHeight + 10}
 			if act.Rf != "ok" {
 				p.ProofHeight = ex.ProofHeight // not greater than the existing proof height
 			}
 			r, err := rhp4.RPCRenewContract(ctx, a.E.Net, a.E.CM, signer, cs, a.E.Prices, a.E.W.Address(), ex, p)
 			res = renewResult{r.Contract, err}
 		default:
-			p := proto4.RPCRefreshContractParams{ContractID: a.K.ID, Allowance: Units(1000), Collateral: Units(2000)}
+			p := proto4.RPCRefreshContractParams{ContractID: oldID, Allowance: allowance, Collateral: collateral}
 			if act.Rf != "ok" {
 				p.Allowance = types.ZeroCurrency
 			}
@@ -318,4 +323,80 @@ func (a *Adapter) checkRenewed(nc rhp4.ContractRevision) {
 	if err == nil && fmt.Sprint(old.Roots) != fmt.Sprint(st.Roots) {
 		a.Issues = append(a.Issues, "renew: roots were not carried over")
 	}
+}
+
+// maybeSwitch: if the host has called RenewV2Contract for the current contract (the renter may have
+// hung up before reading the final message) the renewal is the contract from now on.
+func (a *Adapter) maybeSwitch() {
+	if a.switching {
+		return
+	}
+	id := a.K.ID.V2RenewalID()
+	a.E.C.mu.Lock()
+	_, ok := a.E.C.latest[id]
+	a.E.C.mu.Unlock()
+	if !ok {
+		return
+	}
+	st, err := a.E.State(id)
+	if err != nil {
+		return
+	}
+	a.switchTo(rhp4.ContractRevision{ID: id, Revision: st.Revision})
+}
+
+// switchTo: the renewal replaces the contract the adapter works on; the replaced contract is
+// frozen (it must never change again) and a request that still names it must be refused.
+func (a *Adapter) switchTo(nc rhp4.ContractRevision) {
+	a.switching = true
+	defer func() { a.switching = false }()
+	old, err := a.E.State(a.K.ID)
+	if err != nil {
+		a.Issues = append(a.Issues, "renew: cannot read the replaced contract: "+err.Error())
+		return
+	}
+	if !old.Renewed || old.Revisable {
+		a.Issues = append(a.Issues, "renew: the replaced contract is not reported as renewed / still revisable")
+	}
+	oldK := a.K
+	a.Olds = append(a.Olds, frozen{ID: a.K.ID, Rev: old.Revision, Roots: old.Roots})
+	// every revising request that still names the replaced contract -- honestly signed over its
+	// last revision -- must be refused, and must leave it exactly as it was frozen
+	const probeSession = 99
+	probes := []Act{
+		{Op: "BeginFund", S: probeSession, Deps: []Dep{{A: "a1", N: 1}}, Sf: "ok"},
+		{Op: "BeginRepl", S: probeSession, Kind: "accts", Accs: []string{"a1"}, Target: 1, Cf: "ok"},
+		{Op: "BeginRepl", S: probeSession, Kind: "pools", Accs: []string{"p1"}, Target: 1, Cf: "ok"},
+		{Op: "BeginRenew", S: probeSession, Kind: "renew", Pf: "ok", Cf: "ok", Rf: "ok"},
+		{Op: "BeginRenew", S: probeSession, Kind: "refreshpartial", Pf: "ok", Cf: "ok", Rf: "ok"},
+	}
+	if n := len(old.Roots); n > 0 {
+		id := a.ID(old.Roots[0])
+		probes = append(probes,
+			Act{Op: "BeginRoots", S: probeSession, Off: 0, Len: 1, Pf: "ok", Sf: "ok"},
+			Act{Op: "BeginFree", S: probeSession, Idx: []int{0}, Pf: "ok", Cf: "ok"},
+			Act{Op: "BeginAppend", S: probeSession, Secs: []int{id}, Pf: "ok", Cf: "ok"})
+	}
+	for _, p := range probes {
+		if _, err := a.Step(p); err != nil {
+			a.Issues = append(a.Issues, "renew: probe "+p.Op+": "+err.Error())
+			continue
+		}
+		out, err := a.Step(Act{Op: "Next", S: probeSession})
+		if err != nil || out.Op != "Finish" || out.Reply.K != "rej" {
+			a.Issues = append(a.Issues, fmt.Sprintf("renew: the host did not refuse %s on the contract it has already renewed (%v %v)", p.Op, out.Reply, err))
+		}
+		if s := a.open[probeSession]; s != nil {
+			s.close(a)
+			delete(a.open, probeSession)
+		}
+	}
+	a.LastRenewal = nil
+	st, err := a.E.State(nc.ID)
+	if err != nil {
+		return
+	}
+	a.K = &Contract{ID: nc.ID, RenterKey: oldK.RenterKey, Rev: st.Revision, Formed: st.Revision}
+	a.Base = st.Revision
+	a.Switched = true
 }
